@@ -22,11 +22,106 @@ namespace TinkVerif.GlueTie
 open TinkVerif TinkVerif.GoSem
 open TinkVerif.Gen.GlueAead TinkVerif.Aead
 
+/-! ### frozen statement groups
+  Copies of six statement groups of internal/aead/aesgcmsiv.go as the translator emitted them when they were regenerated as
+  marker-delimited regions.  The WHOLE functions are regenerated now (Gen/GlueGcmSiv, tied in GcmSiv.lean); the theorems about
+  these helper definitions below are lemmas, no longer tie obligations of their own.
+-/
+namespace Gcmsiv
+
+/- region of computeTag: statements `subtle.XORBytes(polyval, polyval, nonce)` … `polyval[aesgcmsivPolyvalSize-1] &= 0x7f` -/
+/- names of tagMask:
+    a0 = polyval (l.227); a1 = nonce (l.227); v1 = polyval (l.235); v2 = polyval (l.236); 
+-/
+def tagMask.v1 (a0 : Bytes) (a1 : Bytes) : Bytes :=
+  GoSem.xorInto a0 (0 : Int) (GoSem.len a0) a0 a1
+
+def tagMask.v2 (a0 : Bytes) (a1 : Bytes) : Bytes :=
+  GoSem.setAt (tagMask.v1 a0 a1) (15 : Int) ((GoSem.getAt (tagMask.v1 a0 a1) (15 : Int)) &&& (127 : UInt8))
+
+def tagMask (a0 : Bytes) (a1 : Bytes) : Bytes :=
+  (tagMask.v2 a0 a1)
+
+/- region of aesCTR: statements `var counter [aesgcmsivBlockSize]byte` … `counterInc := binary.LittleEndian.Uint32(counter[0:4])` -/
+/- names of ctrInit:
+    a0 = tag (l.252); v1 = counter (l.266); v2 = counter (l.267); v3 = counter (l.268); 
+    v4 = counterInc (l.269); 
+-/
+def ctrInit.v1 (a0 : Bytes) : Bytes :=
+  (GoSem.makeBytes (16 : Int))
+
+def ctrInit.v2 (a0 : Bytes) : Bytes :=
+  GoSem.copyInto (ctrInit.v1 a0) (0 : Int) (GoSem.len (ctrInit.v1 a0)) a0
+
+def ctrInit.v3 (a0 : Bytes) : Bytes :=
+  GoSem.setAt (ctrInit.v2 a0) (15 : Int) ((GoSem.getAt (ctrInit.v2 a0) (15 : Int)) ||| (128 : UInt8))
+
+def ctrInit.v4 (a0 : Bytes) : Nat :=
+  (GoSem.getLE 4 (GoSem.slice (ctrInit.v3 a0) (0 : Int) (4 : Int)))
+
+def ctrInit (a0 : Bytes) : Bytes × Nat :=
+  ((ctrInit.v3 a0), (ctrInit.v4 a0))
+
+/- region of aesCTR: statements `counterInc++` … `binary.LittleEndian.PutUint32(counter[0:4], counterInc)` -/
+/- names of ctrStep:
+    a0 = counterInc (l.269); a1 = counter (l.266); v1 = counterInc (l.275); v2 = counter (l.276); 
+-/
+def ctrStep.v1 (a0 : Nat) (a1 : Bytes) : Nat :=
+  ((a0 + 1) % 4294967296)
+
+def ctrStep.v2 (a0 : Nat) (a1 : Bytes) : Bytes :=
+  GoSem.putLE 4 a1 (0 : Int) (4 : Int) (ctrStep.v1 a0 a1)
+
+def ctrStep (a0 : Nat) (a1 : Bytes) : Bytes × Nat :=
+  ((ctrStep.v2 a0 a1), (ctrStep.v1 a0 a1))
+
+/- region of computePolyval: statements `var lengthBlock [aesgcmsivBlockSize]byte` … `binary.LittleEndian.PutUint64(lengthBlock[8:], uint64(len(pt))*8)` -/
+/- names of lengthBlock:
+    a0 = ad (l.209); a1 = pt (l.209); v1 = lengthBlock (l.210); v2 = lengthBlock (l.211); 
+    v3 = lengthBlock (l.212); 
+-/
+def lengthBlock.v1 (a0 : Bytes) (a1 : Bytes) : Bytes :=
+  (GoSem.makeBytes (16 : Int))
+
+def lengthBlock.v2 (a0 : Bytes) (a1 : Bytes) : Bytes :=
+  GoSem.putLE 8 (lengthBlock.v1 a0 a1) (0 : Int) (8 : Int) (((GoSem.toUnsigned 64 (GoSem.len a0)) * (8 : Nat)) % 18446744073709551616)
+
+def lengthBlock.v3 (a0 : Bytes) (a1 : Bytes) : Bytes :=
+  GoSem.putLE 8 (lengthBlock.v2 a0 a1) (8 : Int) (GoSem.len (lengthBlock.v2 a0 a1)) (((GoSem.toUnsigned 64 (GoSem.len a1)) * (8 : Nat)) % 18446744073709551616)
+
+def lengthBlock (a0 : Bytes) (a1 : Bytes) : Bytes :=
+  (lengthBlock.v3 a0 a1)
+
+/- region of deriveKeys: statements `var nonceBlock [aesgcmsivBlockSize]byte` … `copy(nonceBlock[aesgcmsivBlockSize-AESGCMSIVNonceSize:], nonce)` -/
+/- names of nonceBlockInit:
+    a0 = nonce (l.176); v1 = nonceBlock (l.186); v2 = nonceBlock (l.187); 
+-/
+def nonceBlockInit.v1 (a0 : Bytes) : Bytes :=
+  (GoSem.makeBytes (16 : Int))
+
+def nonceBlockInit.v2 (a0 : Bytes) : Bytes :=
+  GoSem.copyInto (nonceBlockInit.v1 a0) (4 : Int) (GoSem.len (nonceBlockInit.v1 a0)) a0
+
+def nonceBlockInit (a0 : Bytes) : Bytes :=
+  (nonceBlockInit.v2 a0)
+
+/- region of deriveKeys: statements `binary.LittleEndian.PutUint32(nonceBlock[:counterSize], counter)` … `binary.LittleEndian.PutUint32(nonceBlock[:counterSize], counter)` -/
+/- names of kdfCounter:
+    a0 = nonceBlock (l.186); a1 = counter (l.192); v1 = nonceBlock (l.193); 
+-/
+def kdfCounter.v1 (a0 : Bytes) (a1 : Nat) : Bytes :=
+  GoSem.putLE 4 a0 (0 : Int) (4 : Int) a1
+
+def kdfCounter (a0 : Bytes) (a1 : Nat) : Bytes :=
+  (kdfCounter.v1 a0 a1)
+
+end Gcmsiv
+
 theorem eight_mul_mod (n : Nat) : (n % 18446744073709551616 * 8) % 18446744073709551616 = (8 * n) % 18446744073709551616 := by
   omega
 
 theorem aadSizeInBits_eq (ad : Bytes) : Aesctrhmac.aadSizeInBits ad = Bytes.be64 (8 * ad.length) := by
-  simp only [Aesctrhmac.aadSizeInBits, Aesctrhmac.aadSizeInBits.buf_2, Aesctrhmac.aadSizeInBits.buf, Aesctrhmac.aadSizeInBits.n,
+  simp only [Aesctrhmac.aadSizeInBits, Aesctrhmac.aadSizeInBits.v3, Aesctrhmac.aadSizeInBits.v2, Aesctrhmac.aadSizeInBits.v1,
     len_eq, toUnsigned_64, eight_mul_mod]
   have := putBE_append 8 [] (makeBytes 8) 0 ((makeBytes 8).length : Int) ((8 * ad.length) % 18446744073709551616) (by simp) (by simp [makeBytes]) (by simp)
   simp only [List.nil_append] at this
@@ -49,23 +144,23 @@ theorem tag_eq_tagInputModel (g : GcmSiv) (encKey authKey nonce pt ad : Bytes) :
 
 theorem tagMask_eq (pv nonce : Bytes) (hp : pv.length = 16) (hn : nonce.length = 12) :
     Gcmsiv.tagMask pv nonce = tagInputModel pv nonce := by
-  have hx : Gcmsiv.tagMask.polyval pv nonce = Bytes.xor (pv.take 12) nonce ++ pv.drop 12 := by
+  have hx : Gcmsiv.tagMask.v1 pv nonce = Bytes.xor (pv.take 12) nonce ++ pv.drop 12 := by
     have hc : (0:Int) ≤ 0 ∧ (0:Int) + Int.ofNat (min pv.length nonce.length) ≤ len pv ∧ len pv ≤ len pv := by
       simp only [len_eq, Int.ofNat_eq_natCast]; omega
     have hm : min pv.length nonce.length = 12 := by omega
     have hxor : Bytes.xor pv nonce = Bytes.xor (pv.take 12) nonce := by rw [← hn, Bytes.xor_take_left]
-    rw [Gcmsiv.tagMask.polyval, xorInto, if_pos hc, hm, hxor]
+    rw [Gcmsiv.tagMask.v1, xorInto, if_pos hc, hm, hxor]
     simp
   have hl : (Bytes.xor (pv.take 12) nonce ++ pv.drop 12).length = 15 + 1 := by
     simp [hp, hn]
-  simp only [Gcmsiv.tagMask, Gcmsiv.tagMask.polyval_2, hx, tagInputModel]
+  simp only [Gcmsiv.tagMask, Gcmsiv.tagMask.v2, hx, tagInputModel]
   generalize Bytes.xor (pv.take 12) nonce ++ pv.drop 12 = X at hl ⊢
   rw [show (15 : Int) = ((15 : Nat) : Int) from rfl, setAt_last X 15 _ hl, getAt_nat]
 
 theorem ctrInit_counter (tag : Bytes) (h : tag.length = 16) : (Gcmsiv.ctrInit tag).1 = GcmSiv.ctrIV tag := by
-  have h2 : Gcmsiv.ctrInit.counter_2 tag = tag := by
-    rw [Gcmsiv.ctrInit.counter_2, copyInto_all _ _ (by simp [Gcmsiv.ctrInit.counter, makeBytes, h])]
-  simp only [Gcmsiv.ctrInit, Gcmsiv.ctrInit.counter_3, h2, GcmSiv.ctrIV]
+  have h2 : Gcmsiv.ctrInit.v2 tag = tag := by
+    rw [Gcmsiv.ctrInit.v2, copyInto_all _ _ (by simp [Gcmsiv.ctrInit.v1, makeBytes, h])]
+  simp only [Gcmsiv.ctrInit, Gcmsiv.ctrInit.v3, h2, GcmSiv.ctrIV]
   rw [show (15 : Int) = ((15 : Nat) : Int) from rfl, setAt_last tag 15 _ h, getAt_nat]
 
 theorem ctrIV_length (tag : Bytes) (h : tag.length = 16) : (GcmSiv.ctrIV tag).length = 16 := by
@@ -75,7 +170,7 @@ theorem ctrInit_counterInc (tag : Bytes) (h : tag.length = 16) :
     (Gcmsiv.ctrInit tag).2 = Bytes.toNatLE ((GcmSiv.ctrIV tag).take 4) := by
   have h1 := ctrInit_counter tag h
   simp only [Gcmsiv.ctrInit] at h1
-  simp only [Gcmsiv.ctrInit, Gcmsiv.ctrInit.counterInc, h1, getLE]
+  simp only [Gcmsiv.ctrInit, Gcmsiv.ctrInit.v4, h1, getLE]
   rw [show (0 : Int) = ((0 : Nat) : Int) from rfl, show (4 : Int) = ((4 : Nat) : Int) from rfl,
     slice_nat _ 0 4 (by omega) (by rw [ctrIV_length tag h]; omega)]
   simp [List.take_take]
@@ -97,7 +192,7 @@ theorem ctrStep_eq (iv : Bytes) (i : Nat) (h : iv.length = 16) :
   have e : (2 : Nat) ^ 32 = 4294967296 := by decide
   have hc : ((Bytes.toNatLE (iv.take 4) + i) % 4294967296 + 1) % 4294967296
       = (Bytes.toNatLE (iv.take 4) + (i + 1)) % 4294967296 := by omega
-  simp only [Gcmsiv.ctrStep, Gcmsiv.ctrStep.counter, Gcmsiv.ctrStep.counterInc, hc, Ctr.blockLE32, e]
+  simp only [Gcmsiv.ctrStep, Gcmsiv.ctrStep.v2, Gcmsiv.ctrStep.v1, hc, Ctr.blockLE32, e]
   congr 1
   have := putLE_append 4 [] (Bytes.ofNatLE 4 ((Bytes.toNatLE (iv.take 4) + i) % 4294967296) ++ iv.drop 4) 0 4
     ((Bytes.toNatLE (iv.take 4) + (i + 1)) % 4294967296) (by simp) (by simp) (by simp [h])
@@ -109,13 +204,13 @@ theorem ctrStep_eq (iv : Bytes) (i : Nat) (h : iv.length = 16) :
 theorem lengthBlock_eq (ad pt : Bytes) :
     Gcmsiv.lengthBlock ad pt = Bytes.ofNatLE 8 (8 * ad.length) ++ Bytes.ofNatLE 8 (8 * pt.length) := by
   have e : (18446744073709551616 : Nat) = 256 ^ 8 := by decide
-  have h2 : Gcmsiv.lengthBlock.lengthBlock_2 ad pt = Bytes.ofNatLE 8 (8 * ad.length) ++ Bytes.zeros 8 := by
-    simp only [Gcmsiv.lengthBlock.lengthBlock_2, Gcmsiv.lengthBlock.lengthBlock, len_eq, toUnsigned_64, eight_mul_mod]
+  have h2 : Gcmsiv.lengthBlock.v2 ad pt = Bytes.ofNatLE 8 (8 * ad.length) ++ Bytes.zeros 8 := by
+    simp only [Gcmsiv.lengthBlock.v2, Gcmsiv.lengthBlock.v1, len_eq, toUnsigned_64, eight_mul_mod]
     have := putLE_append 8 [] (makeBytes 16) 0 8 ((8 * ad.length) % 18446744073709551616) (by simp) (by simp) (by simp [makeBytes])
     simp only [List.nil_append] at this
     rw [this, e, Bytes.ofNatLE_mod]
     simp [makeBytes, Bytes.zeros]
-  simp only [Gcmsiv.lengthBlock, Gcmsiv.lengthBlock.lengthBlock_3, h2, len_eq, toUnsigned_64, eight_mul_mod]
+  simp only [Gcmsiv.lengthBlock, Gcmsiv.lengthBlock.v3, h2, len_eq, toUnsigned_64, eight_mul_mod]
   rw [putLE_append 8 _ (Bytes.zeros 8) 8 _ _ (by simp) (by simp) (by simp), e, Bytes.ofNatLE_mod]
   simp
 
@@ -127,14 +222,14 @@ theorem polyvalInput_eq (pt ad : Bytes) :
 theorem nonceBlockInit_eq (nonce : Bytes) (h : nonce.length = 12) :
     Gcmsiv.nonceBlockInit nonce = Bytes.zeros 4 ++ nonce := by
   have hz : makeBytes 16 = Bytes.zeros 4 ++ Bytes.zeros 12 := by decide
-  simp only [Gcmsiv.nonceBlockInit, Gcmsiv.nonceBlockInit.nonceBlock_2, Gcmsiv.nonceBlockInit.nonceBlock, hz]
+  simp only [Gcmsiv.nonceBlockInit, Gcmsiv.nonceBlockInit.v2, Gcmsiv.nonceBlockInit.v1, hz]
   rw [copyInto_append (Bytes.zeros 4) (Bytes.zeros 12) nonce 4 _ (by simp) (by simp)]
   simp [h, List.take_of_length_le (show nonce.length ≤ 12 by omega), Bytes.zeros]
 
 theorem kdfCounter_eq (blk : Bytes) (c : Nat) (h : 4 ≤ blk.length) :
     Gcmsiv.kdfCounter blk c = Bytes.ofNatLE 4 c ++ blk.drop 4 := by
   have := putLE_append 4 [] blk 0 4 c (by simp) (by simp) (by simp; omega)
-  simpa [Gcmsiv.kdfCounter, Gcmsiv.kdfCounter.nonceBlock] using this
+  simpa [Gcmsiv.kdfCounter, Gcmsiv.kdfCounter.v1] using this
 
 /-- every block `deriveKeys` encrypts is the model's `LE32(counter) ‖ nonce`, also when the buffer is reused -/
 theorem kdf_block_first (nonce : Bytes) (c : Nat) (h : nonce.length = 12) :
@@ -149,8 +244,8 @@ theorem kdf_block_next (nonce : Bytes) (c c' : Nat) :
 
 
 theorem paddedSalt_eq (prf : Bytes → Nat → Option Bytes) (salt : Bytes) :
-    Xaesgcm.derivePerMessageKey.paddedSalt_2 prf salt = (salt ++ Bytes.zeros (12 - salt.length)).take 12 := by
-  simp only [Xaesgcm.derivePerMessageKey.paddedSalt_2, Xaesgcm.derivePerMessageKey.paddedSalt]
+    Xaesgcm.derivePerMessageKey.v2 prf salt = (salt ++ Bytes.zeros (12 - salt.length)).take 12 := by
+  simp only [Xaesgcm.derivePerMessageKey.v2, Xaesgcm.derivePerMessageKey.v1]
   have := copyInto_append [] (makeBytes 12) salt 0 (len (makeBytes 12)) (by simp) (by simp)
   simp only [List.nil_append] at this
   rw [this]
@@ -161,7 +256,7 @@ theorem paddedSalt_eq (prf : Bytes → Nat → Option Bytes) (salt : Bytes) :
 
 theorem derivePerMessageKey_eq (E : Bytes → Bytes) (salt : Bytes) :
     Xaesgcm.derivePerMessageKey (fun b _ => some (Cmac.compute E b)) salt = some (xaesDeriveKey E salt) := by
-  simp only [Xaesgcm.derivePerMessageKey, Xaesgcm.derivePerMessageKey.opt_key1, Xaesgcm.derivePerMessageKey.opt_key2,
+  simp only [Xaesgcm.derivePerMessageKey, Xaesgcm.derivePerMessageKey.v3, Xaesgcm.derivePerMessageKey.v4,
     paddedSalt_eq, Option.bind_some, xaesDeriveKey, Xaesgcm.derivationBlock1Prefix, Xaesgcm.derivationBlock2Prefix]
 
 
@@ -170,7 +265,7 @@ theorem derivePerMessageKey_blocks (prf : Bytes → Nat → Option Bytes) (salt 
     Xaesgcm.derivePerMessageKey prf salt =
       (prf ([0x00, 0x01, 0x58, 0x00] ++ (salt ++ Bytes.zeros (12 - salt.length)).take 12) 16).bind fun k1 =>
       (prf ([0x00, 0x02, 0x58, 0x00] ++ (salt ++ Bytes.zeros (12 - salt.length)).take 12) 16).bind fun k2 => some (k1 ++ k2) := by
-  simp only [Xaesgcm.derivePerMessageKey, Xaesgcm.derivePerMessageKey.opt_key1, Xaesgcm.derivePerMessageKey.opt_key2,
+  simp only [Xaesgcm.derivePerMessageKey, Xaesgcm.derivePerMessageKey.v3, Xaesgcm.derivePerMessageKey.v4,
     paddedSalt_eq, Xaesgcm.derivationBlock1Prefix, Xaesgcm.derivationBlock2Prefix]
 
 example : ([0,1,2,3,4,5,6,7,8,9,10,11,12,13,14,15] : Bytes).length = 16 := rfl
